@@ -419,14 +419,23 @@ fn cyclic(w: &mut dyn Write, r: &mut Rng, len: usize, thorough: bool) -> usize {
     }
     // a base proof claiming foreign verifier data: provable and verifying (the circuit cannot know
     // its own key), rejected by the out-of-circuit check; and it cannot be continued
+    // ... for a foreign value in EVERY part of the verifier data: the digest, the first / a middle / the last
+    // entry of the constants-sigmas cap (each entry is connected to the inner proof's copy separately)
+    let ncap = vd.constants_sigmas_cap.0.len();
+    let mut where_: Vec<Option<usize>> = vec![None, Some(0), Some(ncap - 1)];
+    let chh = cy.data.common.config.fri_config.cap_height;
+    for k in [chh.saturating_sub(1), chh, ncap / 2] { if k < ncap && !where_.contains(&Some(k)) { where_.push(Some(k)); } }
+    if !thorough { where_.truncate(5); }
+    for wh in where_ {
+    let tagw = match wh { None => "digest".to_string(), Some(k) => format!("cap{k}") };
     let mut bogus = vd.clone();
-    bump_hash(&mut bogus.circuit_digest, r);
+    match wh { None => bump_hash(&mut bogus.circuit_digest, r), Some(k) => bump_hash(&mut bogus.constants_sigmas_cap.0[k], r) }
     match cyclic_step(&cy, None, initial, &bogus) {
         Ok(p) => {
             let ver = verdict(&cy.data, p.clone());
             let chk = check_vd(&cy, &p, &vd);
             let carries = p.public_inputs[start..] == vd_slice(&bogus)[..];
-            writeln!(w, "c20 cyclic foreign-vd-base = {} # exp=0 check={chk} verify={ver} carries_foreign={}", (chk == "err" && carries) as u8, carries as u8).unwrap();
+            writeln!(w, "c20 cyclic foreign-vd-{tagw}-base = {} # exp=0 check={chk} verify={ver} carries_foreign={}", (chk == "err" && carries) as u8, carries as u8).unwrap();
             n += 1;
             for (tag, claimed) in [("real", &vd), ("foreign", &bogus)] {
                 let res = cyclic_step(&cy, Some(&p), initial, claimed);
@@ -434,11 +443,12 @@ fn cyclic(w: &mut dyn Write, r: &mut Rng, len: usize, thorough: bool) -> usize {
                     Err(e) => (true, format!("rejected:{}", sh(&e))),
                     Ok(p2) => { let c = check_vd(&cy, &p2, &vd); (false, format!("proved check={c} verify={}", verdict(&cy.data, p2))) }
                 };
-                writeln!(w, "c20 cyclic foreign-vd-continue-{tag} = {} # exp=0 {}", ok as u8, what).unwrap();
+                writeln!(w, "c20 cyclic foreign-vd-{tagw}-continue-{tag} = {} # exp=0 {}", ok as u8, what).unwrap();
                 n += 1;
             }
         }
-        Err(e) => { writeln!(w, "c20 cyclic foreign-vd-base = 1 # exp=0 prove_rejected={}", sh(&e)).unwrap(); n += 1; }
+        Err(e) => { writeln!(w, "c20 cyclic foreign-vd-{tagw}-base = 1 # exp=0 prove_rejected={}", sh(&e)).unwrap(); n += 1; }
+    }
     }
     // an altered inner proof cannot be continued either
     if let Some(p) = chain.last() {
